@@ -46,7 +46,7 @@ def main(ctx):
         recipe.account(ctx, 'mgr-wide', 'Mgr', wide, fw.result())
         recipe.account(ctx, 'mgr-finecreate', 'Mgr', fine, ff.result())
     if rc != 0 or data is None:
-        raise RuntimeError('manager driver failed (rc=%s): %s' % (rc, log[-1500:]))
+        sandbox.driver_failed('manager', rc, log)
     obs = data['lifetime']
     mc = dict(walks, MaxObjs='50', MaxProxies='50', MaxSer='1000')
     _, verdicts = monitor.check('MgrMonitor', obs, invariants=INV, properties=['CallsAnswered'],
